@@ -221,6 +221,28 @@ func (e *env) entries() []entry {
 					_ = jwsutil.VerifySignature(&lj, sig, []byte("msg"))
 				}
 				_ = jwsutil.VerifySignature(&lj, make([]byte, 64), nil)
+				// signatures shaped like the ASN.1 DER form SEQUENCE { INTEGER r, INTEGER s }, whole and cut at every structural
+				// boundary, with the outer length made to fit the cut (what a verifier that also reads DER would be sent)
+				for _, rl := range []int{32, 33, 1, 0, 48, 66} {
+					for _, sl := range []int{32, 1, 0} {
+						full := append([]byte{0x30, byte(4 + rl + sl), 0x02, byte(rl)}, make([]byte, rl)...)
+						if rl > 0 {
+							full[4] = 0x01
+						}
+						full = append(append(full, 0x02, byte(sl)), make([]byte, sl)...)
+						for _, cut := range []int{1, 2, 3, 4, 4 + rl, 5 + rl, 6 + rl, len(full)} {
+							if cut > len(full) {
+								continue
+							}
+							d := append([]byte{}, full[:cut]...)
+							_ = jwsutil.VerifySignature(&lj, d, []byte("msg"))
+							if len(d) >= 2 {
+								d[1] = byte(len(d) - 2)
+								_ = jwsutil.VerifySignature(&lj, d, []byte("msg"))
+							}
+						}
+					}
+				}
 				_, _ = commitment.GetCommitment(&lj, 18)
 				_, _ = commitment.GetRevealValue(&lj, 18)
 			}
